@@ -6,8 +6,9 @@ GROUPS = {
  'classes': ('dcmmeta.py: get_valid_classes, get_multiplicity',
    [('get_valid_classes_is_model', 'get_valid_classes_eq'), ('get_valid_classes_refuses', 'get_valid_classes_refuses'),
     ('get_multiplicity_is_model', 'get_multiplicity_eq')]),
- 'dicts': ('dcmmeta.py: make_empty (base dictionaries), get_classification, get_values_and_class',
-   [('make_empty_bases_is_model', 'make_empty_bases_eq'), ('get_values_and_class_is_lookup', 'get_values_and_class_eq')]),
+ 'dicts': ('dcmmeta.py: make_empty (base dictionaries), get_classification, get_values_and_class, get_values',
+   [('make_empty_bases_is_model', 'make_empty_bases_eq'), ('get_values_and_class_is_lookup', 'get_values_and_class_eq'),
+    ('get_values_is_lookup', 'get_values_eq')]),
  'simplify': ('dcmmeta.py: _simplify, _get_const_period, is_constant, is_repeating',
    [('is_constant_is_model', 'is_constant_eq'), ('is_repeating_is_model', 'is_repeating_eq'),
     ('get_const_period_is_model', 'get_const_period_eq'), ('simplify_is_model', 'simplify_eq')]),
